@@ -31,24 +31,29 @@ type c16Stim struct {
 	G  int      `json:"g"`
 	A  int      `json:"a"`
 	Pl []string `json:"pl"`
+	B  int      `json:"b"` // 1: the next stimulus follows back to back, without waiting for quiescence
 }
 
 func (s c16Stim) String() string {
+	t := s.K
 	switch s.K {
 	case "route":
-		return "route(" + s.P + ")"
+		t = "route(" + s.P + ")"
 	case "incoming":
-		return fmt.Sprintf("incoming(%d,%s)", s.C, strings.Join(s.Pl, ""))
+		t = fmt.Sprintf("incoming(%d,%s)", s.C, strings.Join(s.Pl, ""))
 	case "write":
-		return fmt.Sprintf("write(%d,%d)", s.C, s.N)
+		t = fmt.Sprintf("write(%d,%d)", s.C, s.N)
 	case "cclose":
-		return fmt.Sprintf("cclose(%d)", s.C)
+		t = fmt.Sprintf("cclose(%d)", s.C)
 	case "accept":
-		return fmt.Sprintf("accept(%s%d,#%d)", s.P, s.G, s.A)
+		t = fmt.Sprintf("accept(%s%d,#%d)", s.P, s.G, s.A)
 	case "lclose":
-		return fmt.Sprintf("lclose(%s%d)", s.P, s.G)
+		t = fmt.Sprintf("lclose(%s%d)", s.P, s.G)
 	}
-	return s.K
+	if s.B == 1 {
+		t += "+" // "and, without waiting, ..."
+	}
+	return t
 }
 
 type c16Step struct {
@@ -59,6 +64,7 @@ type c16Step struct {
 type c16Beh struct {
 	Steps []c16Step       `json:"steps"`
 	Final json.RawMessage `json:"final"`
+	key   string          // distinctness: the stimulus sequence (and, with stimuli that do not wait for quiescence, the outcome)
 }
 
 // expected observation after stimulus i (0-based)
@@ -118,7 +124,19 @@ type c16World struct {
 	runErr     error
 	routeBusy  bool
 
+	// bookkeeping for the monitor "the route registered for its first bytes"
+	step      int                // index of the stimulus group being applied (one group = one quiescent point)
+	reg       map[string]c16Reg  // per prefix: what the last completed Route call returned, and when
+	closedLis map[c16LisKey]bool // listeners the director has closed
+	stopped   bool               // a stimulus that stops the multiplexer has been issued (cancel, base Accept error)
+	prefixAt  []int              // per connection: the group in which the client completed the prefix (0 = not yet)
+
 	seed int64
+}
+
+type c16Reg struct {
+	key  c16LisKey
+	step int
 }
 
 func newC16World(nConns, nAccs, prefixLen int, seed int64) *c16World {
@@ -137,6 +155,9 @@ func newC16World(nConns, nAccs, prefixLen int, seed int64) *c16World {
 	w.lis = map[c16LisKey]net.Listener{}
 	w.keyOf = map[net.Listener]c16LisKey{}
 	w.gen = map[string]int{}
+	w.reg = map[string]c16Reg{}
+	w.closedLis = map[c16LisKey]bool{}
+	w.prefixAt = make([]int, nConns+1)
 	def := w.mux.Default()
 	w.lis[c16LisKey{"def", 0}] = def
 	w.keyOf[def] = c16LisKey{"def", 0}
@@ -172,29 +193,19 @@ func (w *c16World) apply(s c16Stim) error {
 			w.mu.Unlock()
 		}()
 	case "cancel":
+		w.mu.Lock()
+		w.stopped = true
+		w.mu.Unlock()
 		w.cancel()
 	case "baseerr":
+		w.mu.Lock()
+		w.stopped = true
+		w.mu.Unlock()
 		w.base.push(c16Item{err: errC16Injected})
 	case "route":
 		// Route takes the mux's mutex; run it on its own goroutine so that a mux that never
 		// releases the mutex shows up as an observation, not as a hung check
-		w.mu.Lock()
-		w.routeBusy = true
-		w.mu.Unlock()
-		go func() {
-			l := w.mux.Route(s.P)
-			w.mu.Lock()
-			defer w.mu.Unlock()
-			w.routeBusy = false
-			k, ok := w.keyOf[l]
-			if !ok {
-				w.gen[s.P]++
-				k = c16LisKey{s.P, w.gen[s.P]}
-				w.keyOf[l] = k
-				w.lis[k] = l
-			}
-			w.rret, w.rretSet = k, true
-		}()
+		go w.route(s.P)
 	case "incoming":
 		if s.C < 1 || s.C > w.nConns || w.conns[s.C] != nil {
 			return fmt.Errorf("bad incoming %v", s)
@@ -209,6 +220,9 @@ func (w *c16World) apply(s c16Stim) error {
 			return fmt.Errorf("bad write %v", s)
 		}
 		c.ClientWrite(w.pay[s.C][w.sent[s.C] : w.sent[s.C]+s.N])
+		if w.sent[s.C] < w.prefixLen && w.sent[s.C]+s.N >= w.prefixLen {
+			w.prefixAt[s.C] = w.step
+		}
 		w.sent[s.C] += s.N
 	case "cclose":
 		c := w.conns[s.C]
@@ -254,6 +268,9 @@ func (w *c16World) apply(s c16Stim) error {
 	case "lclose":
 		w.mu.Lock()
 		l, ok := w.lis[c16LisKey{s.P, s.G}]
+		if ok {
+			w.closedLis[c16LisKey{s.P, s.G}] = true
+		}
 		w.mu.Unlock()
 		if !ok {
 			return fmt.Errorf("bad lclose %v", s)
@@ -263,6 +280,71 @@ func (w *c16World) apply(s c16Stim) error {
 		return fmt.Errorf("unknown stimulus %q", s.K)
 	}
 	return nil
+}
+
+// route calls mux.Route(p) and names the listener it returns: a listener object seen for the first
+// time is the next generation of its prefix.
+func (w *c16World) route(p string) {
+	w.mu.Lock()
+	w.routeBusy = true
+	w.mu.Unlock()
+	l := w.mux.Route(p)
+	w.mu.Lock()
+	defer w.mu.Unlock()
+	w.routeBusy = false
+	k, ok := w.keyOf[l]
+	if !ok {
+		w.gen[p]++
+		k = c16LisKey{p, w.gen[p]}
+		w.keyOf[l] = k
+		w.lis[k] = l
+	}
+	w.rret, w.rretSet = k, true
+	w.reg[p] = c16Reg{key: k, step: w.step}
+}
+
+// applyBurst performs several stimuli back to back on ONE goroutine (not the director's, so that a
+// Route that never gets the multiplexer's mutex is an observation and not a hung check): nothing
+// yields between them, Route is called synchronously, so the goroutines the earlier stimuli woke
+// (a listener's monitor after Close) normally have not run yet when the later ones happen - and if
+// they have, that order is a behaviour of the specification as well. The burst ends early at a
+// stimulus that names a listener which does not exist here (the implementation took another order
+// than the behaviour being replayed, so Route returned another listener). finished is closed at the
+// end; started() is the number of stimuli issued so far.
+func (w *c16World) applyBurst(stims []c16Stim) (finished chan struct{}, started func() int, errp *error) {
+	finished = make(chan struct{})
+	errp = new(error)
+	n := 0
+	started = func() int {
+		w.mu.Lock()
+		defer w.mu.Unlock()
+		return n
+	}
+	go func() {
+		defer close(finished)
+		for _, s := range stims {
+			if s.K == "accept" || s.K == "lclose" {
+				w.mu.Lock()
+				_, ok := w.lis[c16LisKey{s.P, s.G}]
+				w.mu.Unlock()
+				if !ok {
+					return
+				}
+			}
+			w.mu.Lock()
+			n++
+			w.mu.Unlock()
+			if s.K == "route" {
+				w.route(s.P)
+				continue
+			}
+			if err := w.apply(s); err != nil {
+				*errp = err
+				return
+			}
+		}
+	}()
+	return finished, started, errp
 }
 
 func c16Bytes(b []byte) []any {
@@ -354,6 +436,15 @@ func (w *c16World) observe() (obs map[string]any, monitors []string) {
 					if string(got) != string(pay[:sent]) {
 						fail("default-route connection does not yield the client's bytes from the first byte")
 					}
+					// "the route registered for its first N bytes ..., otherwise the default listener": a Route call
+					// for these bytes had returned (at an earlier quiescent point than the one at which the client
+					// completed the prefix) a listener that has not been closed since, and the multiplexer has not
+					// been stopped - that listener is the registered route
+					if sent >= w.prefixLen && w.prefixAt[c] > 0 && !w.stopped {
+						if rg, ok := w.reg[string(pay[:w.prefixLen])]; ok && !w.closedLis[rg.key] && rg.step < w.prefixAt[c] {
+							fail("connection delivered to the default listener although a live route is registered for its first bytes")
+						}
+					}
 				} else {
 					if sent < w.prefixLen || lis.P != string(pay[:w.prefixLen]) {
 						fail("connection delivered to a listener whose prefix is not its first bytes")
@@ -425,6 +516,7 @@ type c16Result struct {
 	monitorAt  int
 	trace      c16Trace // the recorded trace up to and including the divergence
 	stuck      string   // harness problem (not a verdict)
+	truncated  bool     // conforming, but the rest of the behaviour names a listener that does not exist here
 	features   map[string]bool
 }
 
@@ -545,11 +637,65 @@ func c16Replay(b *c16Beh, k c16Cfg, prefixLen int, seed int64) (r c16Result) {
 	}
 	r.conform = true
 	r.divergedAt, r.monitorAt = -1, -1
-	for i, st := range b.Steps {
-		if err := w.apply(st.Stim); err != nil {
-			r.stuck = err.Error()
-			return r
+	r.features = map[string]bool{}
+	for first := 0; first < len(b.Steps); {
+		// a group: stimuli flagged b and the one that follows them; one observation after the group
+		i := first
+		for i < len(b.Steps)-1 && b.Steps[i].Stim.B == 1 {
+			i++
 		}
+		w.step = i + 1
+		cut := false
+		if i == first {
+			if k := b.Steps[i].Stim; k.K == "accept" || k.K == "lclose" {
+				w.mu.Lock()
+				_, ok := w.lis[c16LisKey{k.P, k.G}]
+				w.mu.Unlock()
+				if !ok {
+					// every observation so far equals the model's, but inside an earlier burst Route returned another
+					// listener than in the behaviour being replayed (invisible when a later Route result replaced it):
+					// the rest of this behaviour cannot be issued here
+					r.truncated = true
+					return r
+				}
+			}
+			if err := w.apply(b.Steps[i].Stim); err != nil {
+				r.stuck = err.Error()
+				return r
+			}
+		} else {
+			group := make([]c16Stim, 0, i-first+1)
+			for j := first; j <= i; j++ {
+				group = append(group, b.Steps[j].Stim)
+			}
+			finished, started, errp := w.applyBurst(group)
+			select {
+			case <-finished:
+				if *errp != nil {
+					r.stuck = (*errp).Error()
+					return r
+				}
+			case <-time.After(5 * time.Second):
+				// parked inside the multiplexer (Route waiting for a mutex nobody releases): the census below
+				// decides whether that is quiescence; the stimuli not issued make the observation differ
+			}
+			n := started()
+			if n == 0 {
+				r.stuck = "first stimulus of a burst not applicable: " + group[0].String()
+				return r
+			}
+			if n < len(group) {
+				// the rest of the burst could not be issued: what happened is the burst up to here, then quiescence
+				cut, i = true, first+n-1
+			}
+			for j := first; j < i; j++ {
+				r.trace.Steps = append(r.trace.Steps, map[string]any{"stim": b.Steps[j].Stim, "obs": nil})
+				r.trace.Stims = append(r.trace.Stims, b.Steps[j].Stim.String())
+			}
+		}
+		st := b.Steps[i]
+		st.Stim.B = 0 // (a flag on the last stimulus before quiescence means nothing)
+		first = i + 1
 		ok, busy := c16Quiesce(5 * time.Second)
 		if !ok {
 			fr := []string{}
@@ -562,12 +708,23 @@ func c16Replay(b *c16Beh, k c16Cfg, prefixLen int, seed int64) (r c16Result) {
 		obs, mon := w.observe()
 		r.trace.Steps = append(r.trace.Steps, map[string]any{"stim": st.Stim, "obs": obs})
 		r.trace.Stims = append(r.trace.Stims, st.Stim.String())
+		if st.Stim.K == "route" && i > 0 && b.Steps[i-1].Stim.B == 1 && b.Steps[i-1].Stim.K == "lclose" && b.Steps[i-1].Stim.P == st.Stim.P {
+			// Close and Route of the same prefix back to back: which side of the monitor's delete did Route land on?
+			if rr := obs["rret"].([]any); rr[1] == b.Steps[i-1].Stim.G {
+				r.features["close_then_route_before_the_monitor_deleted_the_route__closed_listener_returned"] = true
+			} else {
+				r.features["close_then_route_after_the_monitor_deleted_the_route__new_listener_registered"] = true
+			}
+		}
 		if i == len(b.Steps)-1 {
-			r.features = map[string]bool{}
 			c16Features(obs, r.features)
 		}
 		if len(mon) > 0 && len(r.monitors) == 0 {
 			r.monitors, r.monitorAt = mon, i
+		}
+		if cut {
+			r.conform, r.divergedAt, r.diff = false, i, "the next stimulus of the burst names a listener that Route has not created here"
+			return r
 		}
 		var want map[string]any
 		if err := json.Unmarshal(b.after(i), &want); err != nil {
@@ -594,9 +751,11 @@ type c16Cfg struct {
 	runFirst            bool
 	preRoutes           []string
 	kinds               string // "" = all
+	burstFirst          string // stimulus kinds that may be followed by the next stimulus without waiting for quiescence ("" = none)
+	burstNext           string // stimulus kinds that may follow them before quiescence
 }
 
-const c16Invs = "TypeOK ExactlyOnce NoneLeftBehind Transparent AcceptFailsAfterStop RunResult"
+const c16Invs = "TypeOK ExactlyOnce NoneLeftBehind Transparent RegistrationKept RoutedByRegistration AcceptFailsAfterStop RunResult"
 
 func tlaBool(b bool) string {
 	if b {
@@ -614,10 +773,18 @@ func (k c16Cfg) defs() (map[string]string, map[string]string) {
 			"Lims":      k.lims,
 			"Allowed":   k.allowedSet(),
 			"PreRoutes": k.preRouteSet(),
+			"BurstFirst": c16Set(k.burstFirst), "BurstNext": c16Set(k.burstNext),
 		}, map[string]string{
 			"RunFirst":  tlaBool(k.runFirst),
 			"PrefixLen": "2", "MaxGen": fmt.Sprint(k.maxGen), "Gen": tlaBool(k.gen), "Hist": tlaBool(k.hist),
 		}
+}
+
+func c16Set(s string) string {
+	if s == "" {
+		return "{}"
+	}
+	return s
 }
 
 func (k c16Cfg) preRouteSet() string {
@@ -651,7 +818,8 @@ func C16(c *vf.Ctx) {
 	q := c.Quick()
 	c.Assume = append(c.Assume,
 		"ListenMux: one Run per multiplexer; the base listener's Accept fails once it is closed; connections block in Read until bytes or EOF arrive (no read deadlines)",
-		"ListenMux replay: the director acts only when the process is quiescent (every other goroutine parked; stop-the-world census), so a stimulus never lands inside a non-blocking region of the multiplexer; the design check with free interleavings covers those windows in the model only",
+		"ListenMux replay: the director acts when the process is quiescent (every other goroutine parked; stop-the-world census) or, for stimuli the behaviour flags, back to back with the previous stimulus from one goroutine (no hook inside drpcmigrate: which of the woken goroutines has already run is not controlled, every order is a behaviour of the specification and the outcome is judged by TLC); other windows inside non-blocking regions of the multiplexer are covered by the design check with free interleavings, in the model only",
+		"ListenMux: 'registered' is what mux.go implements: a prefix is registered while m.routes has an entry for it; Route returns the entry's listener even if that listener has been closed and its monitor has not yet removed the entry (the caller then holds a closed listener and the prefix falls back to the default listener), and registers a new listener only when there is no entry; one Route call at a time",
 		"HeaderConn: the underlying connection follows the io.Writer contract (a short write returns an error) and a failed connection accepts no further bytes",
 		"prefix length 2, byte alphabet {A,B,x,y}; routes AA and BB")
 	var tlcRuns []string
@@ -691,8 +859,12 @@ func C16(c *vf.Ctx) {
 			c16Cfg{conns: 3, accs: 3, maxGen: 1, prefixes: c16Pfx, payloads: c16PayBasic, lims: "{5}", gen: true}, "viewn", 4000, 5*time.Minute)
 		design("free interleaving of stimuli and internal steps, length <= 5, 3 connections, 3 Accept calls",
 			c16Cfg{conns: 3, accs: 3, maxGen: 1, prefixes: c16Pfx, payloads: c16PayBasic, lims: "{5}", gen: false}, "viewn", 4000, 5*time.Minute)
+		design("free interleaving, unbounded, 1 connection, 1 Accept call, route AA, Route repeated (2 listeners per prefix)",
+			c16Cfg{conns: 1, accs: 1, maxGen: 2, prefixes: `{"AA"}`, payloads: `{<<"A","A","x">>}`, lims: "{1000}", gen: false}, "view", 4000, 5*time.Minute)
 		designHeader("3 writers x 1 write, free interleaving", `{"w1","w2","w3"}`, "{0,1,3}", 1, 5*time.Minute)
 	} else {
+		design("free interleaving, unbounded, 1 connection, 2 Accept calls, route AA, Route repeated (2 listeners per prefix)",
+			c16Cfg{conns: 1, accs: 2, maxGen: 2, prefixes: `{"AA"}`, payloads: `{<<"A","A","x">>, <<"A","B","x">>}`, lims: "{1000}", gen: false}, "view", 6000, 14*time.Minute)
 		design("all stimulus sequences of length <= 7 at quiescence, 3 connections, 3 Accept calls",
 			c16Cfg{conns: 3, accs: 3, maxGen: 1, prefixes: c16Pfx, payloads: c16PayBasic, lims: "{7}", gen: true}, "viewn", 12000, 14*time.Minute)
 		design("free interleaving of stimuli and internal steps, length <= 6, 3 connections, 3 Accept calls",
@@ -715,7 +887,7 @@ func C16(c *vf.Ctx) {
 	wg.Wait()
 	sort.Strings(tlcRuns)
 	c.Cov["tlc_runs"] = tlcRuns
-	c.Cov["rule"] = "ListenMux.tla models the multiplexer at goroutine-park grain (Run, monitorContext/Base/Listener, routeConn, Accept, prefixConn) with its environment; TLC checks exactly-once delivery, nothing-left-behind, byte transparency for every write split, Accept-fails-after-stop and Run's result exhaustively for the stated bounds. Behaviours (stimulus sequences with the observation the model demands at every quiescent point) are generated by TLC (seeded simulation over 3 connections / 4 Accept calls / routes AA,BB / re-registration, plus every behaviour of a small configuration) and replayed on the real drpcmigrate.ListenMux over a fake base listener and director-written connections; after each stimulus the process is run to quiescence (stop-the-world census) and the observation (Run state/result, Route result, per connection class/listener/acceptor/bytes/EOF, per Accept call state/result) is compared; a differing observation is accepted only if TLC (ListenMuxTrace.tla) finds it among the quiescent states the specification can reach, otherwise it is a violation; monitors transcribed from the property statement run on every real observation. HeaderConn.tla likewise: every behaviour of start/release (full, short, failing underlying writes; concurrent first writes) is replayed on the real HeaderConn over a gated connection and wire bytes, return values and blocked writers are compared. A behaviour is distinct by its stimulus sequence."
+	c.Cov["rule"] = "ListenMux.tla models the multiplexer at goroutine-park grain (Run, monitorContext/Base/Listener, routeConn, Accept, prefixConn) with its environment; TLC checks exactly-once delivery, nothing-left-behind, byte transparency for every write split, Accept-fails-after-stop and Run's result exhaustively for the stated bounds. Route is a call (stimulus) and a separate registration step under the mux lock, a listener's monitor is a wake-up and a separate delete under the mux lock, RegistrationKept states what 'the route registered for its first bytes' means (a listener handed out by Route stays registered until it is closed; only its own monitor removes the entry) and RoutedByRegistration is the routing clause itself (a connection looked up while a live listener exists for its first bytes goes to that listener and never to the default one), so Route / Close / Route are explored against the monitor in every order. Behaviours (stimulus sequences with the observation the model demands at every quiescent point) are generated by TLC (seeded simulation over 3 connections / 4 Accept calls / routes AA,BB / re-registration, plus every behaviour of small configurations, one of them with Close and Route issued back to back so that the second Route races the closed listener's monitor) and replayed on the real drpcmigrate.ListenMux over a fake base listener and director-written connections; after each stimulus the process is run to quiescence (stop-the-world census) and the observation (Run state/result, Route result, per connection class/listener/acceptor/bytes/EOF, per Accept call state/result) is compared; a differing observation is accepted only if TLC (ListenMuxTrace.tla) finds it among the quiescent states the specification can reach, otherwise it is a violation; monitors transcribed from the property statement run on every real observation. HeaderConn.tla likewise: every behaviour of start/release (full, short, failing underlying writes; concurrent first writes) is replayed on the real HeaderConn over a gated connection and wire bytes, return values and blocked writers are compared. A behaviour is distinct by its stimulus sequence."
 	c.Cov["exhaustive"] = false
 }
 
@@ -767,13 +939,34 @@ func c16ListenMuxReplay(c *vf.Ctx, q bool, note func(string, ...any)) (wait func
 		{"seeded simulation, full alphabet including Run: 2 connections, 3 Accept calls, route AA", c16Cfg{conns: 2, accs: 3, maxGen: 1, prefixes: `{"AA"}`,
 			payloads: `{<<"A","A">>, <<"A","A","x","y">>, <<"A","B","x">>}`, lims: "{8,12}", gen: true, hist: true}, fmt.Sprintf("num=%d", nsim/2), 400},
 	}
+	// Close / Route back to back: the listener's monitor (woken by Close) races the second Route for the mux lock
+	const reroute = `{s \in StimSet \cup BStimSet : s.k \in {"lclose","route","incoming","write","accept"} /\ (s.k = "lclose" => s.p # "def")}`
+	const allBurst = `{"cancel","baseerr","route","incoming","write","cclose","accept","lclose"}`
+	burstSim := nsim // (a simulation step evaluates every successor: with twice the alphabet this family is the slowest to generate)
 	if !q {
+		burstSim = nsim / 3
+	}
+	runs = append(runs,
+		genRun{"every behaviour of length 5 over route/Close/incoming/write/accept with route AA registered and Run started, Close and Route also back to back (not waiting for the monitor): 1 connection, 1 Accept call, 3 listeners per prefix",
+			c16Cfg{conns: 1, accs: 1, maxGen: 3, prefixes: `{"AA"}`, payloads: `{<<"A","A","x">>}`, lims: "{5}", gen: true, hist: true,
+				runFirst: true, preRoutes: []string{"AA"}, kinds: reroute, burstFirst: `{"lclose","route"}`, burstNext: `{"route","lclose"}`}, "", 0},
+		genRun{"seeded simulation, full alphabet, any stimulus may follow the previous one without waiting for quiescence, routes AA,BB registered and Run started: 3 connections, 4 Accept calls, 3 listeners per prefix",
+			c16Cfg{conns: 3, accs: 4, maxGen: 3, prefixes: c16Pfx, payloads: c16PayRich, lims: "{6,9,12,15}", gen: true, hist: true,
+				runFirst: true, preRoutes: []string{"AA", "BB"}, kinds: `StimSet \cup BStimSet`, burstFirst: allBurst, burstNext: allBurst}, fmt.Sprintf("num=%d", burstSim), 400},
+		genRun{"seeded simulation over route/Close/incoming/write/accept, Close and Route also back to back, route AA registered and Run started: 2 connections, 3 Accept calls, 3 listeners per prefix",
+			c16Cfg{conns: 2, accs: 3, maxGen: 3, prefixes: `{"AA"}`, payloads: `{<<"A","A">>, <<"A","A","x","y">>, <<"A","B","x">>}`, lims: "{7,10,13}", gen: true, hist: true,
+				runFirst: true, preRoutes: []string{"AA"}, kinds: reroute, burstFirst: `{"lclose","route"}`, burstNext: `{"route","lclose"}`}, fmt.Sprintf("num=%d", nsim), 400},
+	)
+	if !q {
+		runs = append(runs, genRun{"every behaviour of length 6 over route/Close/incoming/write/accept with route AA registered and Run started, Route also back to back after Close: 1 connection, 2 Accept calls, 3 listeners per prefix",
+			c16Cfg{conns: 1, accs: 2, maxGen: 3, prefixes: `{"AA"}`, payloads: `{<<"A","A","x">>}`, lims: "{6}", gen: true, hist: true,
+				runFirst: true, preRoutes: []string{"AA"}, kinds: reroute, burstFirst: `{"lclose"}`, burstNext: `{"route"}`}, "", 0})
 		runs[0].k.lims = "{5}"
 		runs[0].label = "every behaviour of length 5 after Run started: 1 connection, 1 Accept call, route AA"
 		runs[1].k.lims = "{6}"
 		runs[1].label = strings.Replace(runs[1].label, "length 5", "length 6", 1)
 	}
-	total, conform, altAccepted, rejected, monitorHits, conformanceOnly := 0, 0, 0, 0, 0, 0
+	total, conform, altAccepted, rejected, monitorHits, conformanceOnly, truncated := 0, 0, 0, 0, 0, 0, 0
 	tStart := time.Now()
 	features := map[string]int{}
 	baseline := runtime.NumGoroutine()
@@ -790,7 +983,7 @@ func c16ListenMuxReplay(c *vf.Ctx, q bool, note func(string, ...any)) (wait func
 			name, mod, consts := vf.MCModule("ListenMux", defs, plain)
 			cfg := "SPECIFICATION Spec\n" + consts + "INVARIANTS " + c16Invs + " EmitTerminal\nCHECK_DEADLOCK FALSE\n"
 			seen := map[string]bool{}
-			res, err := vf.TLC(vf.TLCOpts{Module: name, Cfg: cfg, Extra: map[string]string{name + ".tla": mod}, Timeout: 10 * time.Minute, HeapMB: 6000,
+			res, err := vf.TLC(vf.TLCOpts{Module: name, Cfg: cfg, Extra: map[string]string{name + ".tla": mod}, Timeout: 14 * time.Minute, HeapMB: 4000,
 				Simulate: gr.sim, Depth: gr.depth, Seed: c.Seed + int64(ri), Workers: 4, OnLine: func(rec []byte) {
 					var b c16Beh
 					if err := json.Unmarshal(rec, &b); err != nil {
@@ -798,14 +991,27 @@ func c16ListenMuxReplay(c *vf.Ctx, q bool, note func(string, ...any)) (wait func
 						return
 					}
 					parts := make([]string, len(b.Steps))
+					burst := false
 					for i, s := range b.Steps {
 						parts[i] = s.Stim.String()
+						burst = burst || (s.Stim.B == 1 && i < len(b.Steps)-1)
 					}
 					key := strings.Join(parts, " ")
+					if burst {
+						// stimuli that do not wait for quiescence: the same stimulus sequence has one behaviour per order
+						// of the internal steps with a different outcome; keep one of each (by the observations at the
+						// quiescent points)
+						for i := range b.Steps {
+							if b.Steps[i].Stim.B == 0 || i == len(b.Steps)-1 {
+								key += "|" + c16Canon(b.after(i))
+							}
+						}
+					}
 					if seen[key] || len(b.Steps) == 0 {
 						return
 					}
 					seen[key] = true
+					b.key = key
 					genBehs[ri] = append(genBehs[ri], &b)
 				}})
 			genOK[ri] = c16Judge(c, res, err, "ListenMux behaviours: "+gr.label, note)
@@ -837,7 +1043,7 @@ func c16ListenMuxReplay(c *vf.Ctx, q bool, note func(string, ...any)) (wait func
 			}
 			r := c16Replay(b, gr.k, 2, c.Seed*1000003+int64(bi))
 			total++
-			c.Eval(fmt.Sprintf("mux:%d:%s", ri, strings.Join(r.trace.Stims, " ")))
+			c.Eval(fmt.Sprintf("mux:%d:%s", ri, b.key))
 			if r.stuck != "" {
 				c.Inconclusive("ListenMux replay: %s", r.stuck)
 				continue
@@ -850,6 +1056,10 @@ func c16ListenMuxReplay(c *vf.Ctx, q bool, note func(string, ...any)) (wait func
 			}
 			for f := range r.features {
 				features[f]++
+			}
+			if r.truncated {
+				truncated++
+				continue
 			}
 			if r.conform {
 				conform++
@@ -958,6 +1168,7 @@ func c16ListenMuxReplay(c *vf.Ctx, q bool, note func(string, ...any)) (wait func
 		c.Cov["listenmux_behaviours_exhibiting"] = features
 		c.Cov["listenmux_differences_outside_the_property"] = conformanceOnly
 		c.Cov["listenmux_monitor_hits"] = monitorHits
+		c.Cov["listenmux_conforming_but_cut_short_because_route_had_returned_another_listener"] = truncated
 		if os.Getenv("VERIF_DEBUG") != "" {
 			fmt.Fprintf(os.Stderr, "listenmux: total=%d conform=%d alt=%d rejected=%d monitors=%d\n", total, conform, altAccepted, rejected, monitorHits)
 		}
@@ -992,7 +1203,10 @@ func c16Project(traces [][]map[string]any) [][]map[string]any {
 	}
 	for _, t := range cp {
 		for _, st := range t {
-			o := st["obs"].(map[string]any)
+			o, ok := st["obs"].(map[string]any)
+			if !ok {
+				continue // inside a burst: no observation
+			}
 			run := o["run"].([]any)
 			accs := o["accs"].([]any)
 			for _, a := range accs {
@@ -1009,12 +1223,49 @@ func c16Project(traces [][]map[string]any) [][]map[string]any {
 	return cp
 }
 
-// c16ValidateTraces asks TLC which of the recorded traces are behaviours of ListenMux.tla.
+// c16ValidateTraces asks TLC which of the recorded traces are behaviours of ListenMux.tla. Identical
+// traces (behaviours that differ only after the point where the replay stopped) are judged once; TLC
+// gets at most 2500 traces per run.
 func c16ValidateTraces(c *vf.Ctx, k c16Cfg, traces [][]map[string]any, project bool, note func(string, ...any), label string) (map[int]bool, bool) {
 	if project {
 		traces = c16Project(traces)
 		label += "; projected on the property's observables"
 	}
+	uniq := map[string]int{}
+	var ut [][]map[string]any
+	idx := make([]int, len(traces))
+	for i, t := range traces {
+		key := c16Canon(t)
+		j, ok := uniq[key]
+		if !ok {
+			j = len(ut)
+			uniq[key] = j
+			ut = append(ut, t)
+		}
+		idx[i] = j
+	}
+	uacc := map[int]bool{}
+	for lo := 0; lo < len(ut); lo += 2500 {
+		hi := lo + 2500
+		if hi > len(ut) {
+			hi = len(ut)
+		}
+		a, ok := c16ValidateChunk(c, k, ut[lo:hi], project, note, fmt.Sprintf("%s; %d recorded, %d different", label, len(traces), len(ut)))
+		if !ok {
+			return nil, false
+		}
+		for j, v := range a {
+			uacc[lo+j] = v
+		}
+	}
+	acc := map[int]bool{}
+	for i, j := range idx {
+		acc[i] = uacc[j]
+	}
+	return acc, true
+}
+
+func c16ValidateChunk(c *vf.Ctx, k c16Cfg, traces [][]map[string]any, project bool, note func(string, ...any), label string) (map[int]bool, bool) {
 	var sb strings.Builder
 	sb.WriteString("{")
 	for i, t := range traces {
